@@ -264,7 +264,8 @@ Other(f) == IF f = "ttml" THEN "srt" ELSE "ttml"
 GoodSpell(f) == { <<"-", Dot(Lower(f))>>, <<"-", Dot(Upper(f))>>, <<"-", Dot(Mixed(f))>>,
                   <<Lower(f), Dot(Lower(f))>>, <<Upper(f), ".txt">>, <<Mixed(f), "">>, <<Lower(f), Dot(Other(f))>> }
 \* ... and pairs that must end in an error
-BadSpell(f) == { <<"-", ".txt">>, <<"-", "">>, <<"bogus", Dot(f)>>, <<Dot(f), Dot(f)>>, <<"-", Dot(f) \o "x">> }
+\* ("/" \o f stands for a file whose whole NAME is f, without any dot: it has no extension, so nothing is selected)
+BadSpell(f) == { <<"-", ".txt">>, <<"-", "">>, <<"bogus", Dot(f)>>, <<Dot(f), Dot(f)>>, <<"-", Dot(f) \o "x">>, <<"-", "/" \o f>> }
 BadOut == { <<"scc", ".ttml">>, <<"-", ".stl">>, <<"STL", ".srt">> }     \* known types without a writer
 
 Plain(f) == <<"-", Dot(f)>>
